@@ -737,11 +737,18 @@ def chain_stage_pool():
     return pool
 
 
-def chain_history(rng, stages, nev):
+def chain_history(rng, stages, nev, distinct=False):
+    """distinct=True: every value occurs once and no Truncate is issued (chains with a sort stage: the model
+    then needs no oracle for imbl's unstable sort, and the known finding F6 is not entered)"""
     bat = rng.choice("ub")
     n0 = rng.randrange(7)
     src_len = n0
-    head = "%s %s" % (bat, vec([rng.randrange(40) for _ in range(n0)]))
+    pool = list(range(1, 400))
+    rng.shuffle(pool)
+
+    def val():
+        return pool.pop() if distinct else rng.randrange(40)
+    head = "%s %s" % (bat, vec([val() for _ in range(n0)]))
     evs = ["D"] if rng.random() < 0.5 else []
     dyn = [k for k, s in enumerate(stages) if s.split(":")[1] in ("dyninit", "dynamic")]
     length = src_len
@@ -750,9 +757,9 @@ def chain_history(rng, stages, nev):
         nonlocal length
         for _ in range(20):
             k = rng.randrange(12)
-            x = rng.randrange(40)
+            x = val()
             if k == 0:
-                a = [rng.randrange(40) for _ in range(rng.randrange(4))]
+                a = [val() for _ in range(rng.randrange(4))]
                 length += len(a)
                 return "Append" + vec(a)
             if k == 1 and rng.random() < 0.4:
@@ -780,12 +787,12 @@ def chain_history(rng, stages, nev):
                 i = rng.randrange(length)
                 length -= 1
                 return "Remove(%d)" % i
-            if k == 9 and length > 0:
+            if k == 9 and length > 0 and not distinct:
                 t = rng.randrange(length)
                 length = t
                 return "Truncate(%d)" % t
             if k == 10 and rng.random() < 0.4:
-                a = [rng.randrange(40) for _ in range(rng.randrange(5))]
+                a = [val() for _ in range(rng.randrange(5))]
                 length = len(a)
                 return "Reset" + vec(a)
         length += 1
@@ -829,6 +836,16 @@ def chain_cases(rng, all_pairs, ntriples, hist_per_chain, maxev=14):
     for ch in chains:
         for _ in range(hist_per_chain):
             cases.append(chain_history(rng, ch, rng.randrange(2, maxev)))
+    # chains with Sort at the bottom (distinct values, no Truncate)
+    plain = [p for p in pool if not p.endswith(":self")]
+    sort_chains = [["sort:-:0", b] for b in plain]
+    for _ in range(max(1, ntriples // 4)):
+        sort_chains.append(["sort:-:0", rng.choice(pool), rng.choice(plain)])
+    for ch in sort_chains:
+        if ch[1].endswith(":self") and len(ch) == 2:
+            ch[1] = ch[1][:-5]
+        for _ in range(hist_per_chain):
+            cases.append(chain_history(rng, ch, rng.randrange(2, maxev), distinct=True))
     return cases
 
 
